@@ -56,6 +56,23 @@ def translate():
     return rc == 0, out.strip(), item
 
 
+def restore_generated():
+    """Put the committed Generated.lean (the model of the tree the machinery was committed against) back in place."""
+    with Lock("build"):
+        rc, out, _ = run(["git", "-C", ROOT, "show", "HEAD:lean/RubatoModel/Generated.lean"])
+        path = os.path.join(ROOT, "lean", "RubatoModel", "Generated.lean")
+        if rc == 0 and out.strip():
+            try:
+                with open(path) as f:
+                    cur = f.read()
+            except OSError:
+                cur = None
+            if cur != out:
+                with open(path, "w") as f:
+                    f.write(out)
+    return rc == 0
+
+
 _SNAP = None
 
 
